@@ -21,6 +21,7 @@ VALUE_SETS = [
     {"baud": 57600, "timeout": 2.5, "reconnect_timeout": 7.0, "port": 5004, "protocol_version": "2.2", "in_prefix": "mys-in", "out_prefix": "mys-out", "retain": False, "fmt": "json"},
     {"baud": 9600, "timeout": 0.5, "reconnect_timeout": 33.0, "port": 1883, "protocol_version": "1.5", "in_prefix": "a/b", "out_prefix": "", "retain": True, "fmt": "pickle"},
 ]
+VALUE_SETS.append({"baud": 115200, "timeout": 0, "reconnect_timeout": 0.0, "port": 5003, "protocol_version": "2.0", "in_prefix": "x", "out_prefix": "y", "retain": False, "fmt": "json"})
 CLASSES = ["SerialGateway", "AsyncSerialGateway", "TCPGateway", "AsyncTCPGateway", "MQTTGateway", "AsyncMQTTGateway"]
 
 
@@ -346,7 +347,7 @@ def run(tier):
         opts = MQTT_OPTS if "MQTT" in cls_name else (SERIAL_OPTS if "Serial" in cls_name else TCP_OPTS)
         for r in range(len(opts) + 1):
             for subset in itertools.combinations(opts, r):
-                for vs in (0, 1):
+                for vs in range(len(VALUE_SETS)):
                     cases.append((cls_name, subset, vs))
     v1, s1, m1 = e5.pmap(check_options, cases)
     v1 += readme_examples()
